@@ -222,4 +222,4 @@ def _obligations():
 
 
 def obligations():
-    return _obligations() + [labels_obligation("C01"), selectors_obligation("C01"), effects_obligation("C01")]
+    return _obligations() + [constructors_obligation(['cryomotl.Motl', 'cryomotl.EmMotl']), labels_obligation("C01"), selectors_obligation("C01"), effects_obligation("C01")]
